@@ -110,7 +110,7 @@ impl AuthDataSpec {
 }
 
 fn fb(fill: u64, tag: u64, n: usize) -> Vec<u8> {
-    Rng::new(fill, tag, 7).bytes(n)
+    Rng::new(fill, tag, 7).content(n)
 }
 
 /// GetAssertion flavour: length of the hmac-secret output (low 7 bits of `ext_val`, at most 80).
